@@ -1,0 +1,59 @@
+//go:build verif
+
+// Contracts for the deductive verifier in /verif (comment-only file; it
+// contributes no code to any build). Syntax: see /verif/DESIGN.md.
+//
+// Property C18. An Authorizer decides per instance name: avCode(a, name) is
+// the status code of its answer (0 = granted, 7 = PermissionDenied, anything
+// else = the authorizer itself failed). Its answer for a name does not depend
+// on which other names are asked in the same call, and it leaves the slice it
+// is given untouched.
+package auth
+
+//@ ufunc avCode(ref, str) int
+//@ iface Authorizer.Authorize
+//@   modifies nothing
+//@   ensures len(result) == len(instanceNames) && fresh(base(result))
+//@   ensures forall i :: 0 <= i && i < len(result) ==> code(result[i]) == avCode(self, instanceNames[i].value)
+//@         && (result[i] == nil <==> avCode(self, instanceNames[i].value) == 0)
+
+//@ func AuthorizeSingleInstanceName
+//@   requires authorizer != nil
+//@   modifies nothing
+//@   ensures [answer-of-the-authorizer] code(result) == avCode(authorizer, instanceName.value)
+//@         && (result == nil <==> avCode(authorizer, instanceName.value) == 0)
+
+// The 'any' combinator. Decided here: it answers for every name it was asked
+// about, never writes into the slice of names it was given (a nested 'any'
+// would otherwise see its list changed under its feet), and stays within the
+// bounds of its work lists. That the combined answer is exactly "granted iff
+// some member grants, else the first failure" is NOT decided (it needs an
+// existential witness per name through an in-place filter).
+//@ pure anyWF(a) = len(a.authorizers) >= 2 && (forall k :: 0 <= k && k < len(a.authorizers) ==> a.authorizers[k] != nil)
+//@ func (*anyAuthorizer).Authorize
+//@   opt contents int
+//@   requires anyWF(a)
+//@   ensures [one-answer-per-name] len(result) == len(instanceNames)
+//@   ensures [names-untouched] forall i :: 0 <= i && i < len(instanceNames) ==> unchanged(instanceNames[i].value)
+//@   loop 0 invariant -1 <= rangeindex && len(errs) == len(instanceNames) && fresh(base(errs))
+//@   loop 0 invariant len(currentInstanceNames) == len(currentErrsIndex) && len(currentErrsIndex) <= rangeindex + 1
+//@   loop 0 invariant base(currentInstanceNames) == 0 || fresh(base(currentInstanceNames))
+//@   loop 0 invariant base(currentErrsIndex) == 0 || fresh(base(currentErrsIndex))
+//@   loop 0 invariant forall j :: 0 <= j && j < len(currentErrsIndex) ==> 0 <= currentErrsIndex[j] && currentErrsIndex[j] < len(errs)
+//@   loop 0 invariant forall i :: 0 <= i && i < len(instanceNames) ==> unchanged(instanceNames[i].value)
+//@   loop 1 invariant -1 <= rangeindex && len(errs) == len(instanceNames) && fresh(base(errs))
+//@   loop 1 invariant len(currentInstanceNames) == len(currentErrsIndex)
+//@   loop 1 invariant base(currentInstanceNames) == 0 || fresh(base(currentInstanceNames))
+//@   loop 1 invariant base(currentErrsIndex) == 0 || fresh(base(currentErrsIndex))
+//@   loop 1 invariant forall j :: 0 <= j && j < len(currentErrsIndex) ==> 0 <= currentErrsIndex[j] && currentErrsIndex[j] < len(errs)
+//@   loop 1 invariant forall i :: 0 <= i && i < len(instanceNames) ==> unchanged(instanceNames[i].value)
+//@   loop 2 invariant -1 <= rangeindex && len(errs) == len(instanceNames) && fresh(base(errs))
+//@   loop 2 invariant len(nextInstanceNames) == len(nextErrsIndex) && len(nextErrsIndex) <= rangeindex + 1
+//@   loop 2 invariant len(currentInstanceNames) == len(currentErrsIndex)
+//@   loop 2 invariant base(nextInstanceNames) == base(currentInstanceNames) && base(nextErrsIndex) == base(currentErrsIndex)
+//@   loop 2 invariant cap(nextInstanceNames) >= len(currentInstanceNames) && cap(nextErrsIndex) >= len(currentErrsIndex)
+//@   loop 2 invariant base(currentInstanceNames) == 0 || fresh(base(currentInstanceNames))
+//@   loop 2 invariant base(currentErrsIndex) == 0 || fresh(base(currentErrsIndex))
+//@   loop 2 invariant forall j :: rangeindex < j && j < len(currentErrsIndex) ==> 0 <= currentErrsIndex[j] && currentErrsIndex[j] < len(errs)
+//@   loop 2 invariant forall j :: 0 <= j && j < len(nextErrsIndex) ==> 0 <= nextErrsIndex[j] && nextErrsIndex[j] < len(errs)
+//@   loop 2 invariant forall i :: 0 <= i && i < len(instanceNames) ==> unchanged(instanceNames[i].value)
